@@ -148,6 +148,11 @@ def impl_sig(case):
     X = {lab(v) for v in case["X"]}
     Y = {lab(v) for v in case["Y"]}
     Z = {lab(v) for v in case["Z"]}
+    if C.warm_decide(case, 3):
+        # query, edit the same object in place, query again (see common.warmup / detour)
+        import zlib as _z
+        C.warmup(G, lambda: sigma_separated(G, set(X), set(Y), set(Z)), layers=("directed", "bidirected"),
+                 salt=_z.crc32(repr(sorted(case["g"].items())).encode()) | 1)
     before = C.snapshot(G)
 
     def call(a, b):
